@@ -21,7 +21,9 @@ CONSTANTS AEnts,      \* entities of A: set of [mod, name, public]
 VARIABLES phase, exportA, damaged, links, runOK, builds
 vars == <<phase, exportA, damaged, links, runOK, builds>>
 
-Faults == {"none", "missing", "truncated", "notjson", "wrongshape"}
+Faults == {"none", "missing", "truncated", "notjson", "wrongshape",
+           "isdir",          \* modules.json is a directory
+           "pathisfile"}     \* the external path names a file of A's output instead of its directory
 Public == {e \in AEnts : e.public}
 
 Init == phase = "start" /\ exportA = {} /\ damaged = "none" /\ links = << >> /\ runOK = TRUE /\ builds = 0
